@@ -67,17 +67,30 @@ def l_moments_linear(c, dims):
     V, V2 = View(da), View(da2)
     pos = c.position(V)
     m = c.m
+    mk = c.mark()
+    c.assume(k > 0)  # restated after the mark (k is in [1e-6, 1e6])
     for n in (0, 1, 2, 4):
         c.lemma_eq(f"m{n}_times_k", s_momf(m, V2, pos, n), k * s_momf(m, V, pos, n))
-    # ratios of moments: unchanged wherever they are defined (m0 > 0)
+    # ratios of moments: unchanged wherever they are defined (m0 > 0); these follow from the four
+    # lemmas above alone, so they are first tried from the facts since the mark
     c.assume(s_momf(m, V, pos, 0) > 0)
     c.assume(s_momf(m, V, pos, 1) > 0)
     c.assume(s_momf(m, V, pos, 2) > 0)
     c.assume(s_momf(m, V, pos, 4) > 0)
-    c.ensure_eq("tm01_unchanged", s_tm01(m, V2, pos), s_tm01(m, V, pos))
-    c.ensure_eq("tm02_unchanged", s_tm02(m, V2, pos), s_tm02(m, V, pos))
-    c.ensure_eq("uss_times_k", s_uss(m, V2, pos), k * s_uss(m, V, pos))
-    c.ensure_eq("mss_times_k", s_mss(m, V2, pos), k * s_mss(m, V, pos))
+    c.ensure_eq("tm01_unchanged", s_tm01(m, V2, pos), s_tm01(m, V, pos), since=mk)
+    c.ensure_eq("tm02_unchanged", s_tm02(m, V2, pos), s_tm02(m, V, pos), since=mk)
+    c.ensure_eq("uss_times_k", s_uss(m, V2, pos), k * s_uss(m, V, pos), since=mk)
+    c.ensure_eq("mss_times_k", s_mss(m, V2, pos), k * s_mss(m, V, pos), since=mk)
+    if m.symbolic:
+        # spectral widths are functions of moment ratios of degree 0
+        M, M2 = (lambda n: s_momf(m, V, pos, n)), (lambda n: s_momf(m, V2, pos, n))
+        c.lemma_eq("m2_squared_over_m0_m4_unchanged", M2(2) * M2(2) / (M2(0) * M2(4)), M(2) * M(2) / (M(0) * M(4)), since=mk)
+        c.ensure_eq("swe_unchanged", s_swe(m, V2, pos), s_swe(m, V, pos), since=mk)
+        c.lemma_eq("m0_m2_over_m1_squared_unchanged", M2(0) * M2(2) / (M2(1) * M2(1)), M(0) * M(2) / (M(1) * M(1)), since=mk)
+        # sw is masked below hs = 0.001 m: compared where both the original and the scaled sea are above it
+        c.assume(s_hs(m, V2, pos) >= 0.001)
+        c.assume(s_hs(m, V, pos) >= 0.001)
+        c.ensure_eq("sw_unchanged", s_sw(m, V2, pos), s_sw(m, V, pos), since=mk)
     for nm, sp in (("tm01", s_tm01), ("tm02", s_tm02), ("swe", s_swe), ("goda", s_goda), ("sw", s_sw)):
         _real_call(c, da2, nm, pos, sp(m, V, pos), f"real_{nm}_unchanged")
     _real_call(c, da2, "uss", pos, k * s_uss(m, V, pos), "real_uss_times_k")
@@ -92,8 +105,14 @@ def l_goda_unchanged(c, dims):
     V, V2 = View(da), View(da2)
     pos = c.position(V)
     m = c.m
+    mk = c.mark()
+    c.assume(k > 0)
     c.assume(s_momf(m, V, pos, 0) > 0)
-    c.ensure_eq("goda_unchanged", s_goda(m, V2, pos), s_goda(m, V, pos))
+    q = lambda W: m.sigma(W.NF, lambda i: s_oned(m, W, pos, i) ** 2 * W.f(i) * s_df(m, W, i))
+    z = lambda W: m.sigma(W.NF, lambda i: s_oned(m, W, pos, i) * s_df(m, W, i))
+    c.lemma_eq("m0_times_k", z(V2), k * z(V))
+    c.lemma_eq("squared_density_integral_times_k_squared", q(V2), k * k * q(V))
+    c.ensure_eq("goda_unchanged", s_goda(m, V2, pos), s_goda(m, V, pos), since=mk)
 
 
 @contract(SA + "dm", props=["C10"], name="scaling", scenarios=[{"dims": D3}])
@@ -116,9 +135,19 @@ def l_directions_unchanged(c, dims):
     c.ensure("dm_in_0_360", m.and_(s_dm(m, V, pos) >= 0, s_dm(m, V, pos) < 360) if m.symbolic
              else (m.isnan(s_dm(m, V, pos)) or 0 <= s_dm(m, V, pos) < 360))
     _real_call(c, da2, "dm", pos, s_dm(m, V, pos), "real_dm_unchanged")
-    c.assume(m.sigma(V.NF, lambda i: s_oned(m, V, pos, i) * s_df(m, V, i)) > 0)
-    if not m.symbolic:  # symbolic form needs sqrt((ka)^2+(kb)^2) = k sqrt(a^2+b^2): not discharged, not claimed
-        c.ensure_eq("dspr_unchanged", s_dspr(m, V2, pos), s_dspr(m, V, pos))
+    mk = c.mark()
+    c.assume(k > 0)
+    A = lambda W: m.sigma(W.NF, lambda i: s_momd(m, W, pos, i, 1)[0] * s_df(m, W, i))
+    B = lambda W: m.sigma(W.NF, lambda i: s_momd(m, W, pos, i, 1)[1] * s_df(m, W, i))
+    Z = lambda W: m.sigma(W.NF, lambda i: s_oned(m, W, pos, i) * s_df(m, W, i))
+    c.assume(Z(V) > 0)
+    c.lemma_eq("sin_moment_integral_times_k", A(V2), k * A(V))
+    c.lemma_eq("cos_moment_integral_times_k", B(V2), k * B(V))
+    c.lemma_eq("m0_times_k", Z(V2), k * Z(V))
+    if m.symbolic:
+        # sqrt((ka)^2 + (kb)^2) = k sqrt(a^2 + b^2) for k > 0, from the defining axioms of sqrt
+        c.lemma_eq("resultant_length_times_k", m.sqrt(A(V2) * A(V2) + B(V2) * B(V2)), k * m.sqrt(A(V) * A(V) + B(V) * B(V)), since=mk)
+    c.ensure_eq("dspr_unchanged", s_dspr(m, V2, pos), s_dspr(m, V, pos), since=mk)
     _real_call(c, da2, "dspr", pos, s_dspr(m, V, pos), "real_dspr_unchanged")
 
 
@@ -226,12 +255,21 @@ def l_rotation_keeps_bin_width(c, dims):
         da2 = da.assign_coords({"dir": (da["dir"].values + a) % 360})
     V2 = View(da2)
     pos = c.position(V)
-    c.ensure_eq("dd_unchanged", s_dd(m, V2), s_dd(m, V))
-    c.ensure_eq("hs_unchanged", s_hs(m, V2, pos), s_hs(m, V, pos))
-    if not m.symbolic:
-        # (symbolically tm02 mentions the directions only through dd, like hs; the explicit obligation was
-        # slow and unstable in z3 and is therefore checked on concrete replays only)
-        c.ensure_eq("tm02_unchanged", s_tm02(m, V2, pos), s_tm02(m, V, pos))
+    if m.symbolic:
+        # both bin widths get a name, so that the statistics below see them as single unknowns
+        d1, d2 = c.define("dd", s_dd(m, V)), c.define("dd_rotated", s_dd(m, V2))
+        V.dd_name, V2.dd_name = d1, d2
+    mk = c.mark()
+    c.lemma_eq("dd_unchanged", s_dd(m, V2), s_dd(m, V))
+    # hs, tm01, tm02 mention the directions only through dd: they follow from the lemma alone
+    c.ensure_eq("hs_unchanged", s_hs(m, V2, pos), s_hs(m, V, pos), since=mk)
+    c.ensure_eq("tm01_unchanged", s_tm01(m, V2, pos), s_tm01(m, V, pos), since=mk)
+    c.ensure_eq("tm02_unchanged", s_tm02(m, V2, pos), s_tm02(m, V, pos), since=mk)
+    if m.symbolic:
+        for nm, sp in (("hrms", s_hrms), ("swe", s_swe), ("sw", s_sw), ("goda", s_goda), ("uss", s_uss), ("mss", s_mss)):
+            c.ensure_eq(f"{nm}_unchanged", sp(m, V2, pos), sp(m, V, pos), since=mk)
+        for n in (0, 1, 2, 4):
+            c.ensure_eq(f"m{n}_unchanged", s_momf(m, V2, pos, n), s_momf(m, V, pos, n), since=mk)
     if not m.symbolic:
         for nm, sp in (("hs", s_hs), ("tm01", s_tm01), ("tm02", s_tm02), ("dspr", s_dspr), ("swe", s_swe)):
             _real_call(c, da2, nm, pos, sp(m, V, pos), f"real_{nm}_unchanged_under_rotation")
